@@ -128,7 +128,7 @@ def _classes():
 
 
 RAISE_KINDS = ["value", "weird", "sock", "lambda", "str", "repr", "reduce", "huge", "recursive", "group", "unicode", "stop", "zero", "other"]
-MUTATIONS = c06_wire.MUTATIONS + ["oversize", "bad-ser", "bad-ser", "bad-type"]
+MUTATIONS = c06_wire.MUTATIONS + ["oversize", "bad-ser", "bad-ser", "bad-type", "trailing-call", "trailing-call"]
 
 msg_spec = st.fixed_dictionaries({
     "base": st.sampled_from(["connect", "connect", "invoke", "invoke", "invoke", "ping", "garbage", "raise", "raise", "stream", "raise_cb", "raise_ann"]),
@@ -180,6 +180,9 @@ def build_msg(m):
             base["ser"] = [0, 5, 42, 99, 255][x[1] % 5]        # unknown serializer id, everything else valid
         elif x[0] == "bad-type":
             base["type"] = [0, 2, 3, 5, 7, 255][x[1] % 6]
+        elif x[0] == "trailing-call":
+            # a second, complete call is glued behind the payload (inside the same message): it is nobody's request
+            base["payload"] = base["payload"] + live.call_payload(ser, "w", "f", (31337 + x[1] % 5,), {})
         elif x[0] != "oversize":
             muts.append(x)
     raw = c06_wire.build_bytes({"kind": "bytes", "base": base, "muts": muts})
@@ -255,7 +258,8 @@ def _run_case(case, servertype=None, commtimeout=None, keep=False, poolsize=None
         for attempt in (0, 1):
             w = L["witnesses"][i]
             if w is None:
-                w = L["witnesses"][i] = live.proxy(S.uri("w"), timeout=CEILING)
+                # (the two resident clients use different serializers: what a hostile peer leaves behind in one decoder must not reach them)
+                w = L["witnesses"][i] = live.proxy(S.uri("w"), serializer=("serpent", "msgpack")[i], timeout=CEILING)
             try:
                 got = w.f(tok)
             except errors.CommunicationError as x:
